@@ -292,7 +292,9 @@ func (dec *Decoder) parseHeaders(data []byte) error {
 
 	// Initialize probabilities and segment header.
 	ResetProba(&dec.proba)
-	dec.segHdr.AbsoluteDelta = true
+	// Key-frame default per RFC 6386 (and its reference decoder): segment
+	// values are deltas (all zero) until the stream updates them.
+	dec.segHdr.AbsoluteDelta = false
 
 	// Partition 0: modes/header partition.
 	partLen := int(dec.frmHdr.PartitionLength)
